@@ -258,7 +258,7 @@ F9C_API_GUARD = {
     "F9c:vpackvg:strlen(vg->vgname)": ("Vsetname", "UINT16_MAX"),
     "F9c:vpackvg:strlen(vg->vgclass)": ("Vsetclass", "UINT16_MAX"),
     # the rank of a variable is at most the number of dimensions defined in the file (ncvardef), which ncdimdef bounds
-    "F9c:hdf_write_var:assoc->count": ("ncdimdef", "H4_MAX_NC_DIMS"),
+    "F9c:hdf_write_var:assoc->count": ("H4_ncdimdef", "H4_MAX_NC_DIMS"),
 }
 
 
